@@ -209,6 +209,6 @@ register(Harness("c45_collect", "C45", make, {"quick": dict(C=3, imax=2, shards=
                  out_of_bound=OUT + "; more than C collects or 2 detectors; several streams over the same detectors; interruptions between collects; detectors that also produce events", stubs=STUBS,
                  require_exhaustive=True))
 register(Harness("c45_step", "C45", make_step, {"quick": dict(shards=1, budget_s=120, per_path_s=30), "thorough": dict(shards=1, budget_s=600, per_path_s=60)},
-                 goals=["packed", "unequal-widths-rejected"], functions=_fns, mode="traced",
+                 goals=["packed", "unequal-widths-rejected"], functions=_fns, mode="traced", opaque_text=True,
                  symbolic="stream counter c >= 1, last emitted index e >= 0 with c == e + 1 (the invariant), new index m > e (and m2 > e for a second data key): unbounded integers; one or two data keys",
                  out_of_bound="the asyncio plumbing of collect() itself (covered concretely by c45_collect); collect's `counter += width` line is re-stated by the harness", require_exhaustive=True))
